@@ -113,7 +113,7 @@ def gen(rng, tier, k):
         ops.append(dict(op=op, src=src, i=rng.randint(-n - 2, n + 2), sl=[rng.choice([None, 0, 1, -1, 2, n]), rng.choice([None, -1, 1, n, n + 3, 0]), rng.choice([None, None, 1, 2, -1])],
                         seed=rng.randrange(10**6), reverse=rng.random() < 0.5, sort=rng.random() < 0.5, x=x, y=max(x, y) if rng.random() < 0.7 else y,
                         ie=[rng.random() < 0.5, rng.random() < 0.5], ie_bool=rng.random() < 0.2, head=rng.random() < 0.5, tail=rng.random() < 0.5,
-                        end=rng.random() < 0.5, dflt=rng.random() < 0.35, foreign=rng.random() < 0.3))
+                        end=rng.random() < 0.5, dflt=rng.random() < 0.35, foreign=rng.random() < 0.3, tail_bound=rng.random() < 0.25))
     return dict(cls=cname, style=style, offsets=offs, vseed=rng.randrange(10**6), via=rng.choice(["items", "items", "from_dict_rows", "from_dict_cols", "from_dict_partial"]),
                 empty_n=rng.choice([0, 1, 3, 7]), ops=ops, ints=rng.random() < 0.2)
 
@@ -250,7 +250,12 @@ def run(ctx, case):
             elif op == "append_list":
                 other = pool[o["seed"] % len(pool)]
                 res = cur.append(other, sort=o["sort"])
-            elif op == "after" and o["dflt"]:
+            if op in ("after", "before", "between") and o.get("tail_bound") and L._is_hold(cur) and n:
+                # a bound that is exactly the tail (offset + length, as the list itself computes it) of one of the holds
+                j = o["seed"] % n
+                o = dict(o, x=float((cur.df["offset"] + cur.df["length"]).iloc[j]))
+                o["y"] = max(o["x"], o["y"])
+            if op == "after" and o["dflt"]:
                 res = cur.after(o["x"])
             elif op == "before" and o["dflt"]:
                 res = cur.before(o["x"])
